@@ -23,19 +23,26 @@ RULE = ("three streams. 'freqs': scipy fftfreq/rfftfreq for n=1..24 against the 
         "k-cell centres = shifted fftfreq / rfftfreq, reciprocal names/units, direct O(N^2) DFT at the k-mesh's own cell centres, "
         "round trips (mesh and values, labels, mapping), rfftn = matching half of fftn, zero-frequency cell = plain sum, linearity, "
         "component-wise. non-trivial = at least 2 cells and non-constant data (field) / at least one axis with >= 2 cells (mesh)")
-TRUSTED = ["harness/c11.py + driver JSON glue; final evaluation of the model's root-of-unity monomials with numpy exp(-2 pi i j/n)",
+TRUSTED = ["harness/c11.py + driver JSON glue (cfOfJson builds Poly constants, denseJ prints the non-zero entries of the model function "
+           "Poly.dense); final floating-point evaluation of the printed coefficient table with numpy exp(-2 pi i j/n) (eval_coef); that this "
+           "table, evaluated exactly at primitive roots, IS the value of the model over the ring is proved (poly_dense_value, "
+           "driver_evaluates_to_model, driver_fftn_is_dft, driver_rfftn_is_dft, driver_ifftn_is_idft)",
            "scipy.fft (pocketfft) fftn/ifftn/rfftn/irfftn/fftfreq/rfftfreq and numpy fftshift/ifftshift modelled by their documented contracts "
-           "(the contracts are exercised by this run)",
-           "the driver evaluates the generic model at formal root-of-unity combinations (Poly); that Poly's operations are those of the "
-           "group ring is not proved, it is validated by the evaluation at the complex roots"]
+           "(the contracts are exercised by this run)"]
 ASSUMPTIONS = ["theorems about values are over a commutative ring with per-axis root parameters satisfying explicit hypotheses "
-               "(w^n=1, w*wi=1, ninv*n=1, orthogonality); exp(-2 pi i/n) in C satisfies them (proved in Lemmas/C11Complex.lean)",
-               "irfftn is modelled on Hermitian-consistent half spectra only (what rfftn produces); inputs whose zero/Nyquist planes "
-               "are not conjugate-symmetric are outside the property and are not generated"]
-UNPROVED = ["that the driver's formal root-of-unity arithmetic (Poly: sums = concatenation, products = added exponent vectors) obeys the "
-            "commutative-ring laws the value theorems assume is not proved in Lean; every case evaluates it at the complex roots and "
-            "compares with the real code",
-            "irfftn on half spectra that are not Hermitian-consistent (library-defined behaviour, outside the property) is not modelled"]
+               "(w^n=1, w*wi=1, ninv*n=1, orthogonality); exp(-2 pi i/n) in C satisfies them (proved in Lemmas/C11Complex.lean), and the "
+               "driver's formal roots evaluated with the harness's substitution are exactly those complex roots (driver_complex)",
+               "irfftn is modelled on Hermitian-consistent half spectra only (what rfftn produces: rfftn_spectrum_consistent; on them the "
+               "model's irfftn is real: irfftn_returns_real); inputs whose zero/Nyquist planes are not conjugate-symmetric are outside the "
+               "property and are not generated"]
+UNPROVED = ["the floating-point evaluation of exp(-2 pi i j/n) and of the dot product with the printed coefficients (harness eval_coef) and "
+            "the rounding of pocketfft are outside Lean; they are covered by the 1e-11 * l1 comparator only",
+            "irfftn has no one-sum closed form of its own in Lean (fftn, rfftn, ifftn have: fftn_is_dft, rfftn_is_dft, ifftn_is_idft): it is "
+            "the inverse DFT of the Hermitian extension by contract and is tied to the rest by the round trips (irfftn_rfftn, "
+            "rfftn_irfftn_values) and realness (irfftn_returns_real)",
+            "irfftn on half spectra that are not Hermitian-consistent (library-defined behaviour, outside the property) is not modelled",
+            "fftn(ifftn F) = F and rfftn(irfftn G) = G are proved for the arrays (fftn_ifftn_values, rfftn_irfftn_values); the field-level "
+            "statement (meshes, labels of a k-space field that did not come from fftn) is checked by the oracle only"]
 BUDGET = {"quick": 100, "thorough": 1200}
 
 SIZES = [1, 2, 3, 4, 5, 6, 8]
